@@ -371,6 +371,12 @@ func (e *Engine) verifyFunction(key string) (*FuncResult, error) {
 	if fn.Blocks == nil {
 		return nil, fmt.Errorf("function %s has no body", key)
 	}
+	if e.baseHeapSorts != nil {
+		e.heapSorts = map[string]string{}
+		for k, v := range e.baseHeapSorts {
+			e.heapSorts[k] = v
+		}
+	}
 	x := newExec(e, fn, con)
 	x.curBlk = 0
 	x.anc = ancestors(fn)
@@ -487,6 +493,20 @@ func (e *Engine) verifyFunction(key string) (*FuncResult, error) {
 			}
 			x.oblige(fmt.Sprintf("%s/post/%s@ret%d", key, lbl, ri), "post", r.guard, f, cl, fmt.Sprintf("%s: ensures %s", x.posText(r.instr.Pos()), cl.Text))
 		}
+		for k, cl := range con.Exits {
+			pc.pol = 1
+			pc.wit = nil
+			f, err := pc.formula(cl.E)
+			lbl := cl.Label
+			if lbl == "" {
+				lbl = fmt.Sprint(k)
+			}
+			if err != nil {
+				x.oblige(fmt.Sprintf("%s/exit/%s@ret%d", key, lbl, ri), "post", r.guard, "false", cl, fmt.Sprintf("%s: exit %s  [cannot be evaluated on the current code: %v]", x.posText(r.instr.Pos()), cl.Text, err))
+				continue
+			}
+			x.oblige(fmt.Sprintf("%s/exit/%s@ret%d", key, lbl, ri), "post", r.guard, f, cl, fmt.Sprintf("%s: exit %s", x.posText(r.instr.Pos()), cl.Text))
+		}
 		if !con.NoFrame {
 			x.frameObligations(body, r, ri, entry, con, pc)
 		}
@@ -496,6 +516,12 @@ func (e *Engine) verifyFunction(key string) (*FuncResult, error) {
 	}
 	if len(body.rets) == 0 {
 		x.warn("function has no reachable return")
+	}
+	// loop clauses must name loops that exist (a clause for a missing loop would silently be ignored)
+	for ord := range con.Loops {
+		if ord >= len(body.loops) {
+			x.fatal("contract has clauses for loop %d but the function has only %d loop(s) (loops without a back edge, e.g. a range whose body always returns or panics, are not loops)", ord, len(body.loops))
+		}
 	}
 	for _, o := range x.obls {
 		skipped := false
